@@ -75,6 +75,87 @@ def map_value_contract(engine, call, st, text, args, kwargs):
     return out
 
 
+def done_callback_contract(engine, call, st, text, args, kwargs):
+    """ASSUMED contract of concurrent.futures.Future.add_done_callback(fn): fn is called exactly once, with the future, when it is done
+    (sequentialised: here).  An exception escaping fn is logged and dropped by the Future machinery - modelled as the path's outcome so that
+    contracts can forbid it."""
+    st.emit("cb:done")
+    out = []
+    for a, k, v in engine.invoke(args[0], [Unknown("future")], st, label="done-callback"):
+        out.append((a, k, v if k == "raise" else Unknown("None")))
+    return out
+
+
+def _chain_clauses():
+    SETTLE = ("set_result", "set_exception", "cancel")
+
+    def settles_once(p):
+        if "cb:done" not in p.events:
+            return None
+        return p.outcome == "return" and sum(count(p.events, e) for e in SETTLE) == 1
+
+    def then_once(p):
+        if any("result-raises" in t for t in p.trail):
+            return count(p.events, "then") == 0
+        return count(p.events, "then") == 1
+
+    def else_matching(p):
+        if "else" not in p.events:
+            return None
+        return p.assumed("else_ is not None") is True and p.assumed("isinstance(err, exc_type)") is True and count(p.events, "else") == 1 and \
+            any("then-raises" in t or "result-raises" in t for t in p.trail)
+
+    def failure_without_else(p):
+        failed = any("then-raises" in t or "result-raises" in t for t in p.trail)
+        if not failed or "else" in p.events or "cancel" in p.events:
+            return None
+        return ("set_exception" in p.events) if "cb:done" in p.events else p.outcome == "raise"
+
+    return [
+        ("then-once-when-the-value-arrives", "`then` is invoked exactly once when the source value is available, not at all when it failed", then_once),
+        ("else-only-for-a-matching-failure", "the else handler is invoked at most once, only for a failure that is an instance of its class", else_matching),
+        ("unmatched-failure-is-the-result's-failure", "a failure the else_ pair does not cover becomes the failure of the result (raised / set on the target future)", failure_without_else),
+        ("target-future-settles-exactly-once", "when the source is a future, its done-callback settles the target exactly once (result, exception or cancellation) and "
+                                               "lets no exception escape (an escaping exception would leave the target pending forever)", settles_once),
+    ]
+
+
+def _gather_clauses():
+    def one_slot_per_source_value(p):
+        loops = [i for i, e in enumerate(p.events) if e == "for[source_values]{"]
+        if not loops or "}!" in p.events:
+            return None
+        i = loops[0]
+        body = p.events[i + 1:p.events.index("}", i)]
+        return count(body, "append:result") == 1 and count(body, "append:pending") <= 1
+
+    def result_in_source_order(p):
+        if "set_result" not in p.events or "for[result]{" not in p.events:
+            return None                          # no result set, or the abstract comprehension had no iteration
+        return index(p.events, "for[result]{") < index(p.events, "set_result")
+
+    def failure_fails_the_gather(p):
+        # the callback's own future failed (d.result() raised and the handler caught it)
+        if "cb:done" not in p.events or not any("result-raises" in t for t in p.trail) or not any(t.endswith(".caught") for t in p.trail):
+            return None
+        return "set_exception" in p.events and "set_result" not in p.events
+
+    def empty_and_plain(p):
+        if p.assumed("target_count == 0") is True:
+            return p.outcome == "return" and "cb:done" not in p.events
+        if p.assumed("not pending") is True:
+            return p.outcome == "return" and "cb:done" not in p.events and isinstance(p.payload, Unknown)
+        return None
+
+    return [
+        ("one-result-slot-per-source-value", "every source value, future or not, gets exactly one slot of the result list, in source order", one_slot_per_source_value),
+        ("result-assembled-from-the-slots-in-order", "the aggregate result is assembled by walking the slots in order (results of futures, plain values at their positions)",
+         result_in_source_order),
+        ("first-failure-fails-the-aggregate", "a failed source future fails the aggregate future and no result is set by that callback", failure_fails_the_gather),
+        ("no-futures-no-waiting", "an empty source yields an empty list and a source without futures its values, without registering callbacks", empty_and_plain),
+    ]
+
+
 FIELD_EVENTS = [(r"on_field_start$", "field+"), (r"on_field_end$", "field-"), (r"^resolver$", "resolver"),
                 (r"self\.complete_value$", "complete"), (r"self\.add_error$", "add_error")]
 FIELD_NOTHROW = [r"on_field_(start|end)$", r"self\.add_error$", r"^ResolveInfo$"]
@@ -971,6 +1052,39 @@ TRACE_CONTRACTS = [
                    lambda p: count(p.events, "else") <= 1 and ("else" not in p.events or any("then-raises" in t for t in p.trail))),
                   ("else-only-for-matching-class", "the else handler runs only when an else_ pair was given and the exception is an instance of its class",
                    lambda p: "else" not in p.events or p.assumed("else_ and isinstance(err, else_[0])") is True)],
+         assumes=[]),
+    dict(id="AsyncIORuntime.map_value", target="py_gql.execution.runtime.asyncio:AsyncIORuntime.map_value", props=["C16", "C08"],
+         config=Config(events=[(r"^then$", "then"), (r"^else_\[1\]$", "else")], nothrow=[r"^_isawaitable_fast$", r"^cast$"]),
+         clauses=[("then-at-most-once", "`then` is invoked at most once", lambda p: count(p.events, "then") <= 1),
+                  ("then-exactly-once-when-the-value-arrives", "when the (awaited) value is available `then` is invoked exactly once, first",
+                   lambda p: None if any("await-raises" in t for t in p.trail) else (count(p.events, "then") == 1 and p.events[0] == "then")),
+                  ("else-at-most-once-after-a-failure", "the else handler is invoked at most once and only after the value failed or `then` raised",
+                   lambda p: count(p.events, "else") <= 1 and ("else" not in p.events or any("then-raises" in t or "await-raises" in t for t in p.trail))),
+                  ("else-only-for-matching-class", "the else handler runs only when an else_ pair was given and the exception is an instance of its class",
+                   lambda p: None if "else" not in p.events else p.assumed("else_ and isinstance(err, else_[0])") is True),
+                  ("unmatched-failures-propagate", "a failure the else_ pair does not cover is re-raised, not swallowed",
+                   lambda p: None if not (any("then-raises" in t or "await-raises" in t for t in p.trail) and "else" not in p.events) else p.outcome == "raise")],
+         assumes=["a coroutine's body is analysed sequentially (what happens once the awaited value arrives); scheduling is the C08 stand-in's business"]),
+    dict(id="threadpool.chain", target="py_gql.execution.runtime.threadpool:chain", props=["C08", "C16"],
+         config=Config(events=[(r"^then$", "then"), (r"^cb$", "else"), (r"target\.set_result$", "set_result"), (r"target\.set_exception$", "set_exception"),
+                               (r"target\.cancel$", "cancel")],
+                       nothrow=[r"^_is_future_fast$", r"^cast$", r"^Future$", r"target\.(set_result|set_exception|cancel)$", r"^cb$"],
+                       raises=[(r"f\.result$", [Exception, __import__("concurrent.futures", fromlist=["CancelledError"]).CancelledError])],
+                       callbacks=[(r"add_done_callback$", done_callback_contract)]),
+         clauses=_chain_clauses(),
+         assumes=["concurrent.futures.Future.add_done_callback calls the callback exactly once when the future is done; set_result / set_exception / cancel do not raise",
+                  "the else handler itself does not raise (if it did inside the done-callback the target would never settle - noted, outside the property)"]),
+    dict(id="threadpool.gather_futures", target="py_gql.execution.runtime.threadpool:gather_futures", props=["C08"],
+         config=Config(events=[(r"^result_append$|^result\.append$", "append:result"), (r"^pending_append$|^pending\.append$", "append:pending"), (r"outer\.set_result$", "set_result"),
+                               (r"outer\.set_exception$", "set_exception")],
+                       nothrow=[r"^_is_future_fast$", r"^cast$", r"^Future$", r"outer\.(set_result|set_exception)$", r"_append$", r"^list$", r"^len$", r"\.cancelled$", r"\.cancel$"],
+                       raises=[(r"\.result$", [Exception])],
+                       callbacks=[(r"add_done_callback$", done_callback_contract)]),
+         clauses=_gather_clauses(),
+         assumes=["Future.add_done_callback contract; callbacks run one at a time (the unsynchronised `done += 1` across worker threads is outside this family's reach)"]),
+    dict(id="ThreadPoolRuntime.map_value", target="py_gql.execution.runtime.threadpool:ThreadPoolRuntime.map_value", props=["C08"],
+         config=Config(events=[(r"^chain$", lambda call, args, kwargs: "chain(%s)" % ",".join(__import__("ast").unparse(a) for a in call.args))]),
+         clauses=[("delegates-to-chain", "map_value is chain(value, then, else_)", lambda p: None if p.outcome != "return" else p.events == ("chain(value,then,else_)",))],
          assumes=[]),
     dict(id="process_graphql_query", target="py_gql._graphql:process_graphql_query", props=["C16", "C10"],
          config=_stage_cfg(extra_events=[(r"^GraphQLResult$", lambda call, args, kwargs: "result(%s)" % ",".join(
